@@ -188,6 +188,8 @@ def gen_typed(rng, exotic=True, with_openapi_friendly=False):
                     mk.append(N("Params\n" + B()))
                 if rng.random() < 0.8:
                     mk.append(N("Result\n" + B()))
+                if rng.random() < 0.5:
+                    mk.reverse()    # the children of a Method have no prescribed order
                 kids.append(N("Method m%d_%d" % (i, j), mk))
             blocks.append(N("URL /rpc%d" % i, kids))
     rng.shuffle(blocks)
